@@ -10,6 +10,7 @@ import (
 	"regexp"
 	"sort"
 	"strings"
+	"time"
 
 	"github.com/robustirc/robustirc/internal/robust"
 	"github.com/robustirc/robustirc/internal/verifgen"
@@ -330,6 +331,19 @@ func (m *Monitors) c17(st *Step) []Finding {
 		m.Stats["c17.ended"]++
 		if s.Id.Reply == 0 && !s.Server {
 			m.ended[s.Id.Id] = st.Entry.Id
+		}
+		// a client session that ends through its own line: only QUIT, a ban on the address the
+		// line comes from, the ten-minute limit for registration (measured on entry time) or an
+		// operator killing or banning itself (KILL, GLINE of its own address) end it; a node that ends it for another reason (its own clock,
+		// say) tells the client that its live session is gone
+		if e := &st.Entry; s.Id.Reply == 0 && !s.Server && e.Session == s.Id.Id && e.Type == int64(robust.IRCFromClient) {
+			m.Stats["c17.ended-by-own-line"]++
+			up := strings.ToUpper(e.Data)
+			banned := e.RemoteAddr != "" && st.Before.Config.Banned[e.RemoteAddr] != ""
+			late := !s.LoggedIn && time.Duration(e.UnixNano-s.Created) > 10*time.Minute
+			if !(strings.Contains(up, "QUIT") || banned || late || (s.Operator && (strings.Contains(up, "KILL") || strings.Contains(up, "GLINE")))) {
+				add("end:without-reason", fmt.Sprintf("client session %v (logged in: %v, created %v before this entry) ended through its own line %.60q", s.Id, s.LoggedIn, time.Duration(e.UnixNano-s.Created), e.Data))
+			}
 		}
 		if s.Nick != "" {
 			if o, ok := st.After.NickOwner(Fold(s.Nick)); ok && o == s.Id {
